@@ -261,7 +261,8 @@ def scalar_neighbours(v, rng):
     elif isinstance(v, bytes):
         out += [v + b"~", v[:-1] if v else b"~"]
     elif isinstance(v, _uuid.UUID):
-        out += [_uuid.UUID(int=v.int ^ 1), _uuid.UUID(int=v.int, version=rng.choice((1, 3, 5)))]
+        out += [_uuid.UUID(int=v.int ^ 1), _uuid.UUID(int=v.int, version=rng.choice((1, 3, 5))),
+                _uuid.UUID(int=v.int & ~(0xC000 << 48))]    # variant bits cleared (NCS): version nibble kept, .version None
     elif isinstance(v, _dt.datetime):
         out += [v + _dt.timedelta(seconds=1), v - _dt.timedelta(days=400) if v.year > 2 else v + _dt.timedelta(days=400), v.date()]
         if v.tzinfo is None:
@@ -525,6 +526,7 @@ def aimed(node, v, rng):
     elif k == "uuid4" and isinstance(v, _uuid.UUID):
         for ver in (1, 3, 5):
             yield _uuid.UUID(int=v.int, version=ver), "uuid_version"
+        yield _uuid.UUID(int=v.int & ~(0xC000 << 48)), "uuid_variant"
     elif k == "dict" and isinstance(v, dict) and node.get("keys") is not None:
         pass
 
@@ -639,6 +641,8 @@ def zoo():
     z["uuid4"] = _uuid.UUID("5a1f2e0c-9d3b-4c7a-8f21-0123456789ab")
     z["uuid5"] = _uuid.UUID("5a1f2e0c-9d3b-5c7a-8f21-0123456789ab")
     z["uuid_nil"] = _uuid.UUID(int=0)
+    z["uuid_v4nibble_ncs"] = _uuid.UUID("5a1f2e0c-9d3b-4c7a-0f21-0123456789ab")
+    z["uuid_v4nibble_ms"] = _uuid.UUID("5a1f2e0c-9d3b-4c7a-cf21-0123456789ab")
     z["datetime_naive"] = _dt.datetime(2020, 1, 2, 3, 4, 5)
     z["datetime_aware"] = _dt.datetime(2020, 1, 2, 3, 4, 5, tzinfo=_dt.timezone.utc)
     z["datetime_min"] = _dt.datetime.min
